@@ -368,3 +368,87 @@ fn he_addrs_front() {
     assert_eq!(got, list);
     assert!(addrs.is_empty());
 }
+
+// ======================= bounded stand-ins for the TIME clauses (outside contracts) =======================
+// Real timers (tokio's test-util is not enabled in the crate).  Both tests are one-sided in the direction that
+// machine load cannot falsify: timers never fire early, and the deadline test allows 2.5x slack.
+
+/// A.he.not_earlier [C11]: after a failure in the middle of a stagger interval the replacement attempt starts at once,
+/// but the attempt after that must still wait a full stagger delay (no failure in between)
+#[tokio::test]
+async fn standin_stagger_not_earlier() {
+    let delay = Duration::from_millis(120);
+    let log: Log = Arc::new(Mutex::new(Vec::new()));
+    let t0 = std::time::Instant::now();
+    let stamps: Arc<Mutex<Vec<(usize, Duration)>>> = Arc::new(Mutex::new(Vec::new()));
+    struct Timed { id: usize, fail_after: Option<Duration>, started: Option<std::time::Instant>, stamps: Arc<Mutex<Vec<(usize, Duration)>>>, t0: std::time::Instant, sleep: Option<Pin<Box<tokio::time::Sleep>>> }
+    impl Future for Timed {
+        type Output = Out;
+        fn poll(mut self: Pin<&mut Self>, cx: &mut Context<'_>) -> Poll<Out> {
+            let this = &mut *self;
+            if this.started.is_none() {
+                this.started = Some(std::time::Instant::now());
+                this.stamps.lock().unwrap().push((this.id, this.t0.elapsed()));
+                this.sleep = this.fail_after.map(|d| Box::pin(tokio::time::sleep(d)));
+            }
+            match this.sleep.as_mut() {
+                Some(s) => match s.as_mut().poll(cx) { Poll::Ready(()) => Poll::Ready(Err(format!("e{}", this.id))), Poll::Pending => Poll::Pending },
+                None => Poll::Pending,
+            }
+        }
+    }
+    let _ = log;
+    let mut set: EyeballSet<Timed, u32, String> = EyeballSet::new(Some(delay), Some(Duration::from_millis(700)), Some(1));
+    for id in 0..4 {
+        set.push(Timed { id, fail_after: if id == 0 { Some(Duration::from_millis(40)) } else { None }, started: None, stamps: stamps.clone(), t0, sleep: None });
+    }
+    let _ = set.finish().await;
+    let st = stamps.lock().unwrap().clone();
+    assert!(st.len() >= 3, "fewer than three attempts were started before the deadline: {st:?}");
+    let at = |i: usize| st.iter().find(|(id, _)| *id == i).map(|(_, d)| *d);
+    let (a1, a2) = (at(1).expect("attempt 1 started"), at(2).expect("attempt 2 started"));
+    assert!(a2 >= a1 + delay - Duration::from_millis(5),
+        "attempt 2 was started {:?} after attempt 1 although no attempt failed in between (stagger delay {:?}); starts: {st:?}", a2 - a1, delay);
+}
+
+/// A.he.deadline [C11]: with every attempt hanging the operation gives up at the overall deadline, also when
+/// delay x candidates exceeds it, and starts nothing afterwards
+#[tokio::test]
+async fn standin_overall_deadline() {
+    let Rig { mut set, log, tx: _tx } = rig(5, Some(Duration::from_millis(100)), Some(Duration::from_millis(200)), Some(1));
+    let t0 = std::time::Instant::now();
+    let r = tokio::time::timeout(Duration::from_secs(5), set.finish()).await.expect("finish() never completed");
+    let took = t0.elapsed();
+    assert!(r.is_err(), "all attempts hang: the result must be the timeout error");
+    assert!(took <= Duration::from_millis(500), "the operation completed after {took:?}, the configured overall deadline is 200ms");
+    assert!(starts(&log).len() <= 3, "attempts were started after the overall deadline: {:?}", starts(&log));
+}
+
+/// A.tcp.connecting [C10] (bounded stand-in for `TcpConnecting::connect`, class A: `mut self` receiver, async blocks):
+/// connecting succeeds whenever some candidate accepts - a candidate whose socket cannot even be set up (unassignable
+/// local address for its family) is one failed attempt, not the failure of the whole operation; order does not matter.
+#[tokio::test]
+async fn standin_tcp_unusable_candidate() {
+    use crate::client::conn::transport::tcp::{TcpTransport, TcpTransportConfig};
+    use std::net::{Ipv4Addr, Ipv6Addr, SocketAddr};
+    for (v6_first, sequential) in [(true, false), (false, true), (true, true)] {
+        let listener = tokio::net::TcpListener::bind("127.0.0.1:0").await.unwrap();
+        let port = listener.local_addr().unwrap().port();
+        let mut config = TcpTransportConfig::default();
+        config.local_address_ipv6 = Some("2001:db8::1".parse().unwrap()); // documentation prefix: assigned to no interface
+        if sequential {
+            config.happy_eyeballs_timeout = None;
+            config.happy_eyeballs_concurrency = Some(1);
+        }
+        let transport: TcpTransport = TcpTransport::builder().with_config(config).with_gai_resolver().build();
+        let v6 = SocketAddr::new(Ipv6Addr::LOCALHOST.into(), port);
+        let v4 = SocketAddr::new(Ipv4Addr::LOCALHOST.into(), port);
+        let candidates = if v6_first { vec![v6, v4] } else { vec![v4, v6] };
+        let (result, _accepted) = tokio::join!(
+            async { tokio::time::timeout(Duration::from_secs(5), transport.connect_to_addrs(candidates)).await },
+            async { tokio::time::timeout(Duration::from_secs(2), listener.accept()).await }
+        );
+        let stream = result.expect("connect did not finish").expect("the IPv4 candidate accepts, so connecting must succeed");
+        assert_eq!(stream.peer_addr().unwrap(), v4, "v6_first={v6_first} sequential={sequential}");
+    }
+}
